@@ -1,3 +1,188 @@
-From Verif Require Import model.BatteryStatus.
-Theorem C16_placeholder : True. Proof. exact I. Qed.
-Print Assumptions C16_placeholder.
+(* C16 — a battery is reported usable only while its data proves it healthy.
+   Statements only; every proof is `exact <lemma>` from proofs/BatteryStatus*.v.
+   Model: model/BatteryStatus.v (one `step` per iteration of the tracker's select loop; every
+   event carries the clock reading `now` at which it is handled).  The tables of valid
+   states, the critical level and the blocking/data-age constants are the ones translated
+   from /repo (gen/BatteryStatus.v). *)
+From Coq Require Import Lia String.
+From Verif Require Import model.BatteryStatus proofs.BatteryStatusFacts proofs.BatteryStatusBackoff
+  proofs.BatteryStatusPool.
+Open Scope string_scope.
+Open Scope list_scope.
+Open Scope Z_scope.
+
+(* The status a subscriber holds (the last notification, NOT_WORKING before the first) is
+   the tracker's _last_status, after every history. *)
+Theorem C16_reported_is_last_status : forall c ts0 tr,
+  last_reported (outputs c (init c ts0) tr) = st_last (final c (init c ts0) tr).
+Proof. exact last_reported_final. Qed.
+
+(* SAFETY, for every history of events and clock readings: if the battery is currently
+   reported WORKING or UNCERTAIN then the latest battery message and the latest inverter
+   message each passed every validity predicate when they were handled, and every data-timer
+   tick of that stream handled since was a late one (younger data existed): no data
+   time-out has been processed since. *)
+Theorem C16_safe : forall c ts0 tr,
+  last_reported (outputs c (init c ts0) tr) <> NotWorking ->
+  bat_evidence c tr /\ inv_evidence c tr.
+Proof. exact safe. Qed.
+
+(* what "passed every validity predicate" means *)
+Theorem C16_battery_message_predicates : forall c now m,
+  bat_msg_ok c now m = true <->
+  now - bm_ts m <= c_max_age c /\
+  mem_str (bm_state m) battery_valid_state = true /\
+  mem_str (bm_relay m) battery_valid_relay = true /\
+  mem_str critical_level (bm_errors m) = false /\
+  bm_cap m = true.
+Proof. exact bat_msg_ok_spec. Qed.
+
+Theorem C16_inverter_message_predicates : forall c now m,
+  inv_msg_ok c now m = true <->
+  now - im_ts m <= c_max_age c /\
+  mem_str (im_state m) inverter_valid_state = true /\
+  mem_str critical_level (im_errors m) = false.
+Proof. exact inv_msg_ok_spec. Qed.
+
+(* the translated tables say what the property calls "operational" *)
+Theorem C16_tables :
+  (forall s, mem_str s battery_valid_state = true <-> s = "IDLE" \/ s = "CHARGING" \/ s = "DISCHARGING") /\
+  (forall s, mem_str s battery_valid_relay = true <-> s = "CLOSED") /\
+  (forall s, mem_str s inverter_valid_state = true <->
+             s = "STANDBY" \/ s = "IDLE" \/ s = "CHARGING" \/ s = "DISCHARGING") /\
+  critical_level = "CRITICAL".
+Proof.
+  repeat split; try (intro H; apply mem_str_In in H; cbn in H; intuition congruence);
+    try (intro H; apply mem_str_In; cbn; intuition congruence).
+Qed.
+
+(* IMMEDIACY, from any state: a message failing any predicate, or a data-timer tick not
+   discarded by the late filter, makes the battery NOT_WORKING in the same step, and the
+   change is notified in that step if the battery was usable. *)
+Theorem C16_immediate : forall c s now e,
+  disqualifying c s now e ->
+  st_last (fst (step c s now e)) = NotWorking /\
+  (st_last s <> NotWorking -> snd (step c s now e) = Some NotWorking).
+Proof. exact immediate. Qed.
+
+(* UNCERTAIN: whenever the status is evaluated for a battery that was usable and still has
+   healthy data, it is UNCERTAIN exactly while it is blocked, WORKING otherwise. *)
+Theorem C16_uncertain : forall c s now e,
+  skipped c s now e = false ->
+  let s' := fst (step c s now e) in
+  both_ok s' = true -> st_last s <> NotWorking ->
+  st_last s' = if is_blocked now (st_blk s') then Uncertain else Working.
+Proof. exact uncertain. Qed.
+
+(* recovery: healthy data on a not-working battery => WORKING at once, block cleared *)
+Theorem C16_recover : forall c s now e,
+  skipped c s now e = false ->
+  let s' := fst (step c s now e) in
+  both_ok s' = true -> st_last s = NotWorking ->
+  st_last s' = Working /\ b_until (st_blk s') = None.
+Proof. exact recover. Qed.
+
+(* The three methods of BlockingStatus used by the model are the ones translated from /repo;
+   they equal the readable forms the back-off proofs are written against. *)
+Theorem C16_blocking_status_as_translated :
+  (forall c now b, block c now b = block_hand c now b) /\
+  (forall b, unblock b = unblock_hand b) /\
+  (forall now b, is_blocked now b = is_blocked_hand now b).
+Proof. exact (conj block_spec (conj unblock_spec is_blocked_spec)). Qed.
+
+(* BACK-OFF.  After every history the blocking state refines the closed-form counter
+   [streak] (consecutive effective failures since the last success / recovery) ... *)
+Theorem C16_backoff_invariant : forall c ts0 tr,
+  wf_cfg c -> refines c (st_blk (final c (init c ts0) tr)) (streak c ts0 tr).
+Proof. exact backoff_reachable. Qed.
+
+(* ... and a failure reported for a usable battery whose block (if any) has expired is the
+   k-th consecutive one, k = streak + 1: it blocks until now + min(2^(k-1) d_min, d_max)
+   and (data healthy) the battery is UNCERTAIN in the same step. *)
+Theorem C16_backoff : forall c s now sp,
+  wf_cfg c -> refines c (st_blk s) sp ->
+  st_last s <> NotWorking -> is_blocked now (st_blk s) = false ->
+  let s' := fst (step c s now (SetPower false true)) in
+  let k := S (sp_k sp) in
+  spec_effect c s s' now (SetPower false true) sp
+    = mkSp k (Some (now + Z.min (2 ^ (Z.of_nat k - 1) * c_dmin c) (c_dmax c))) /\
+  b_until (st_blk s') = Some (now + Z.min (2 ^ (Z.of_nat k - 1) * c_dmin c) (c_dmax c)) /\
+  st_last s' = (if both_ok s then Uncertain else NotWorking).
+Proof. exact backoff_failure. Qed.
+
+Theorem C16_failure_while_blocked_changes_nothing : forall c s now,
+  st_last s <> NotWorking -> is_blocked now (st_blk s) = true ->
+  st_blk (fst (step c s now (SetPower false true))) = st_blk s.
+Proof. exact failure_while_blocked. Qed.
+
+Theorem C16_success_resets : forall c s now b sp,
+  let s' := fst (step c s now (SetPower true b)) in
+  b_until (st_blk s') = None /\ spec_effect c s s' now (SetPower true b) sp = spec0.
+Proof. exact success_resets. Qed.
+
+Theorem C16_data_events_keep_blocking : forall c s now e,
+  (forall a b, e <> SetPower a b) -> st_last s <> NotWorking ->
+  st_blk (fst (step c s now e)) = st_blk s.
+Proof. exact data_events_keep_blocking. Qed.
+
+(* NOTIFICATIONS ONLY ON CHANGE: consecutive notifications differ, and the first one differs
+   from the initial NOT_WORKING. *)
+Theorem C16_only_on_change : forall c ts0 tr,
+  no_repeat NotWorking (notifications (outputs c (init c ts0) tr)).
+Proof. exact only_on_change. Qed.
+
+(* POOL: after any sequence of status notifications, a returned component was requested and
+   its latest status is WORKING, or it is UNCERTAIN and no requested component is WORKING;
+   and nothing usable is withheld. *)
+Theorem C16_pool : forall ms comps id,
+  In id (get_working_components (pool_run pool_init ms) comps) ->
+  In id comps /\
+  (latest ms id = Working \/
+   (latest ms id = Uncertain /\ forall id', In id' comps -> latest ms id' <> Working)).
+Proof. exact pool_fallback. Qed.
+
+Theorem C16_pool_complete : forall ms comps id,
+  In id comps ->
+  (latest ms id = Working -> In id (get_working_components (pool_run pool_init ms) comps)) /\
+  (latest ms id = Uncertain -> (forall id', In id' comps -> latest ms id' <> Working) ->
+   In id (get_working_components (pool_run pool_init ms) comps)).
+Proof. exact pool_complete. Qed.
+
+(* non-vacuity, with the constants of the code (10 s data age, 1 s .. 30 s blocking):
+   healthy pair -> WORKING; failure -> UNCERTAIN; probe after the deadline -> WORKING;
+   second failure blocks 2 s; critical error -> NOT_WORKING; silence -> NOT_WORKING *)
+Example C16_nonvacuous :
+  let c := mkC default_max_data_age_us min_blocking_duration_us default_max_blocking_duration_us in
+  let b := fun ts => BatMsg (mkBM ts "CHARGING" "CLOSED" ["WARN"] true) in
+  let i := fun ts => InvMsg (mkIM ts "IDLE" []) in
+  let tr := [(0, b 0); (0, i 0); (1000, SetPower false true); (500000, b 500000); (1001000, i 1001000);
+             (1002000, SetPower false true); (3001999, b 3001999); (3002000, i 3002000);
+             (3003000, BatMsg (mkBM 3003000 "CHARGING" "CLOSED" ["CRITICAL"] true)); (3004000, b 3004000);
+             (13002000, InvTimer); (13004000, BatTimer)] in
+  wf_cfg c /\
+  notifications (outputs c (init c (-5)) tr)
+    = [Working; Uncertain; Working; Uncertain; Working; NotWorking; Working; NotWorking] /\
+  last_reported (outputs c (init c (-5)) (firstn 8 tr)) = Working /\
+  streak c (-5) (firstn 6 tr) = mkSp 2 (Some 3002000) /\
+  get_working_components (pool_run pool_init [(1, Working); (2, Uncertain); (1, NotWorking)]) [1; 2; 3] = [2].
+Proof.
+  cbn zeta. split; [unfold wf_cfg, min_blocking_duration_us, default_max_blocking_duration_us; cbn [c_dmin c_dmax]; lia|]. repeat split; vm_compute; reflexivity.
+Qed.
+
+Print Assumptions C16_reported_is_last_status.
+Print Assumptions C16_safe.
+Print Assumptions C16_battery_message_predicates.
+Print Assumptions C16_inverter_message_predicates.
+Print Assumptions C16_tables.
+Print Assumptions C16_immediate.
+Print Assumptions C16_uncertain.
+Print Assumptions C16_recover.
+Print Assumptions C16_blocking_status_as_translated.
+Print Assumptions C16_backoff_invariant.
+Print Assumptions C16_backoff.
+Print Assumptions C16_failure_while_blocked_changes_nothing.
+Print Assumptions C16_success_resets.
+Print Assumptions C16_data_events_keep_blocking.
+Print Assumptions C16_only_on_change.
+Print Assumptions C16_pool.
+Print Assumptions C16_pool_complete.
